@@ -796,6 +796,8 @@ def loop_specs(tier, seed):
     S.append(LoopSpec('timer-swallowed', [dict(frm=K('CAPSLOCK'), to=[]), dict(frm=K('CAPSLOCK', 'J'), to=K('LEFT'), rep=sp(['LEFT']))],
                       K('CAPSLOCK', 'J', 'LEFT'), E=3, T=0, B=1, W=4, intr=0, late=False,
                       note='C11: key presses that the mapper swallows while a repeat is pending'))
+    S.append(LoopSpec('timer-batch', [dict(A_B), dict(special)], K('D', 'A'), E=3, T=0, B=2, W=4, intr=0, late=False,
+                      note='C11: the event that starts or cancels a repeat shares its wake-up with another event (also one the mapper ignores)'))
     # C12: tablet mode
     S.append(LoopSpec('tablet', [dict(A_B), dict(special)], K('A', 'D'), E=2 + d, T=2, B=1, W=4 + d, intr=0, late=False,
                       note='C12: tablet on/off anywhere, same wake-up in either device order, while a repeat is pending'))
@@ -981,8 +983,8 @@ CLAUSES = {
     'C20': 'a failure injected at the k-th driver call (register_poll, poll, next_keyboard, next_tablet, send; every k of every explored schedule) makes the loop return Err with that message and no write follows',
 }
 
-REL = {'C10': ('chunking', 'chunking-foreign', 'burst', 'chunking-long', 'tablet-repeat', 'timer', 'tablet', 'faults', 'timer-chord', 'timer-chord-mapped', 'timer-swallowed', 'tablet-layer', 'tablet-absorbing', 'timer-noise'),
-       'C11': ('timer', 'timer-chord', 'timer-chord-mapped', 'timer-swallowed', 'timer-noise', 'tablet', 'faults', 'tablet-repeat'),
+REL = {'C10': ('chunking', 'chunking-foreign', 'burst', 'chunking-long', 'tablet-repeat', 'timer', 'tablet', 'faults', 'timer-chord', 'timer-chord-mapped', 'timer-swallowed', 'tablet-layer', 'tablet-absorbing', 'timer-noise', 'timer-batch'),
+       'C11': ('timer', 'timer-chord', 'timer-chord-mapped', 'timer-swallowed', 'timer-noise', 'timer-batch', 'tablet', 'faults', 'tablet-repeat'),
        'C12': ('tablet', 'tablet-layer', 'tablet-absorbing', 'faults', 'tablet-repeat'),
        'C20': ('faults',)}
 
